@@ -40,12 +40,6 @@ pub trait Serialize {
         ensures serializer.str_rel(self.ser_text(), r);
 }
 
-pub trait Error: Sized {
-    spec fn custom_spec<M>(msg: M) -> Self;
-    fn custom<M>(msg: M) -> (r: Self)
-        ensures r == Self::custom_spec(msg);
-}
-
 pub trait Visitor: Sized {
     type Value;
     spec fn visit_str_rel<E: Error>(self, v: Seq<char>, r: Result<Self::Value, E>) -> bool;
@@ -72,15 +66,4 @@ pub trait Deserialize: Sized {
     fn deserialize<D>(deserializer: D) -> (r: Result<Self, D::Error>)
         where D: Deserializer
         ensures Self::de_rel(deserializer, r);
-}
-
-/// C16, deserialising side: a string value is accepted exactly when the parser accepts it, with the parser's value;
-/// the parser's error is handed to the format unchanged; anything that is not a string is refused
-pub open spec fn de_post<T, E: Error>(v: Seq<char>, r: Result<GenericPurl<T>, E>) -> bool
-    where T: FromStr + PurlShape, <T as PurlShape>::Error: From<<T as FromStr>::Err>
-{
-    exists|pr: Result<GenericPurl<T>, <T as PurlShape>::Error>| #[trigger] parse_post::<T>(v, pr) && match pr {
-        Ok(p) => r == Ok::<GenericPurl<T>, E>(p),
-        Err(e) => r == Err::<GenericPurl<T>, E>(E::custom_spec(e)),
-    }
 }
